@@ -1,6 +1,7 @@
 package main
 
 import (
+	"regexp"
 	"fmt"
 	"go/token"
 	"go/types"
@@ -486,6 +487,12 @@ func c09escape(p *Program, r *Report, rule string) {
 }
 
 func isTimerC(v ssa.Value) bool {
+	// a receive-only channel of time.Time is a timer's (Timer.C, Ticker.C, time.After): nothing else produces one here
+	if ch, ok := v.Type().Underlying().(*types.Chan); ok && ch.Elem().String() == "time.Time" {
+		if _, isParam := v.(*ssa.Parameter); isParam {
+			return true
+		}
+	}
 	if u, ok := v.(*ssa.UnOp); ok && u.Op == token.MUL {
 		if fa, ok := u.X.(*ssa.FieldAddr); ok {
 			return typeShort(fa.X.Type()) == "Timer" && fieldName(fieldOf(fa)) == "C"
@@ -514,8 +521,10 @@ func c09cancel(p *Program, r *Report, rule string) {
 				defs = append(defs, e.Callee+"("+argKey(e, 0)+")")
 			}
 		}
-		want := []string{"builtin close(Conn.closeReadDone)", "dyn FV:cancel()", "Conn.close(FV:c)"}
-		if strings.Join(defs, ";") != strings.Join(want, ";") {
+		// the CancelFunc and the connection are captured variables of the closure, or parameters when the body is a method
+		got := regexp.MustCompile(`(FV|param):\w+`).ReplaceAllString(strings.Join(defs, ";"), "·")
+		want := []string{"builtin close(Conn.closeReadDone)", "dyn ·()", "Conn.close(·)"}
+		if got != strings.Join(want, ";") {
 			return false, "defers: " + strings.Join(defs, ";")
 		}
 		return true, ""
@@ -554,18 +563,23 @@ func c09cancel(p *Program, r *Report, rule string) {
 		if !st {
 			return false, "closeReadCtx not stored"
 		}
-		cl, _ := gos[0].Val.(*Closure)
-		if cl == nil {
-			return false, "goroutine is not the closure"
-		}
-		// bindings are addresses of captured variables; the cancel variable must have been stored the WithCancel cancel
 		okCancel := false
-		for _, e := range pa.Events {
-			if e.Kind == "store" && e.Val.Key() == cancelK {
-				for _, b := range cl.Bind {
-					if ad, isAd := b.(*Addr); isAd && ad.K == e.AddrK {
-						okCancel = true
+		if cl, _ := gos[0].Val.(*Closure); cl != nil {
+			// bindings are addresses of captured variables; the cancel variable must have been stored the WithCancel cancel
+			for _, e := range pa.Events {
+				if e.Kind == "store" && e.Val.Key() == cancelK {
+					for _, b := range cl.Bind {
+						if ad, isAd := b.(*Addr); isAd && ad.K == e.AddrK {
+							okCancel = true
+						}
 					}
+				}
+			}
+		} else {
+			// the body is a method: the CancelFunc is passed as an argument
+			for _, a := range gos[0].Args {
+				if a != nil && a.Key() == cancelK {
+					okCancel = true
 				}
 			}
 		}
